@@ -793,7 +793,10 @@ def oracle_C01(case, obs):
         if k in ("dispense",):
             comp_ok = False
         if k == "aspirate":
-            comp_ok = comp_ok  # a stand-alone aspirate does not change compositions
+            # a stand-alone aspirate does not change compositions, but a volume with more than two decimals is rounded in
+            # the record, so the replayed volumes (hence later fractions) are only close to the tracked ones, not equal
+            if any(v is not None and (v * 100).denominator != 1 for v in (num(x) for x in flatF(op["vols"]))):
+                comp_ok = False
         # addressing: the records name the rack and device-specific number of the wells the call named
         if k in ("aspirate", "dispense"):
             ws = flatF(op["wells"])
